@@ -1,4 +1,9 @@
 
+(** val implb : bool -> bool -> bool **)
+
+let implb b1 b2 =
+  if b1 then b2 else true
+
 (** val xorb : bool -> bool -> bool **)
 
 let xorb b1 b2 =
@@ -3507,6 +3512,272 @@ let rec assemble n0 p upd names ctxs ps c t =
 let sem_eval n0 p upd names ctxs unit_pn t =
   bind (assemble n0 p upd names ctxs (lp p) (fun _ -> false) t) (fun r -> Ok
     (tand r unit_pn))
+
+type bop =
+| BAnd
+| BOr
+| BXor
+| BIff
+| BImp
+
+type fnupd =
+| FConst of bool
+| FVar of nat
+| FNot of fnupd
+| FBin of bop * fnupd * fnupd
+| FParam of str * fnupd list
+
+(** val ch0 : n **)
+
+let ch0 =
+  Npos (XO (XO (XO (XO (XI XH)))))
+
+(** val ch1 : n **)
+
+let ch1 =
+  Npos (XI (XO (XO (XO (XI XH)))))
+
+(** val chu : n **)
+
+let chu =
+  Npos (XI (XI (XI (XI (XI (XO XH))))))
+
+(** val pname : str -> str **)
+
+let pname name =
+  app name (chu :: [])
+
+(** val bump : (str -> bool) -> nat -> str -> str **)
+
+let rec bump isvar fuel name =
+  match fuel with
+  | O -> name
+  | S k -> if isvar name then bump isvar k (app name (chu :: [])) else name
+
+(** val explode_rs : (str -> bool) -> nat -> fnupd list -> str -> fnupd **)
+
+let rec explode_rs isvar fuel args prefix =
+  match args with
+  | [] -> FParam ((bump isvar fuel prefix), [])
+  | a :: rest ->
+    FBin (BAnd, (FBin (BImp, a,
+      (explode_rs isvar fuel rest (app prefix (ch1 :: []))))), (FBin (BImp,
+      (FNot a), (explode_rs isvar fuel rest (app prefix (ch0 :: []))))))
+
+(** val flatten_rs : (str -> bool) -> nat -> fnupd -> fnupd **)
+
+let rec flatten_rs isvar fuel = function
+| FNot g -> FNot (flatten_rs isvar fuel g)
+| FBin (op, l, r) ->
+  FBin (op, (flatten_rs isvar fuel l), (flatten_rs isvar fuel r))
+| FParam (name, args) ->
+  explode_rs isvar fuel (map (flatten_rs isvar fuel) args) (pname name)
+| x -> x
+
+(** val eval_op : bop -> bool -> bool -> bool **)
+
+let eval_op op a b =
+  match op with
+  | BAnd -> (&&) a b
+  | BOr -> (||) a b
+  | BXor -> xorb a b
+  | BIff -> eqb a b
+  | BImp -> implb a b
+
+(** val eval_fn :
+    (str -> bool list -> bool) -> (nat -> bool) -> fnupd -> bool **)
+
+let rec eval_fn i s = function
+| FConst b -> b
+| FVar v -> s v
+| FNot g -> negb (eval_fn i s g)
+| FBin (op, l, r) -> eval_op op (eval_fn i s l) (eval_fn i s r)
+| FParam (name, args) -> i name (map (eval_fn i s) args)
+
+(** val eval_flat : (str -> bool) -> (nat -> bool) -> fnupd -> bool **)
+
+let eval_flat rho s f =
+  eval_fn (fun name _ -> rho name) s f
+
+(** val c_nl : n **)
+
+let c_nl =
+  Npos (XO (XI (XO XH)))
+
+(** val c_cr : n **)
+
+let c_cr =
+  Npos (XI (XO (XI XH)))
+
+(** val c_hash : n **)
+
+let c_hash =
+  Npos (XI (XI (XO (XO (XO XH)))))
+
+(** val c_dot : n **)
+
+let c_dot =
+  Npos (XO (XI (XI (XI (XO XH)))))
+
+(** val c_slash : n **)
+
+let c_slash =
+  Npos (XI (XI (XI (XI (XO XH)))))
+
+(** val s_bdd : str **)
+
+let s_bdd =
+  (Npos (XO (XI (XO (XO (XO (XI XH))))))) :: ((Npos (XO (XO (XI (XO (XO (XI
+    XH))))))) :: ((Npos (XO (XO (XI (XO (XO (XI XH))))))) :: []))
+
+(** val s_dot_bdd : str **)
+
+let s_dot_bdd =
+  c_dot :: s_bdd
+
+(** val s_dot : str **)
+
+let s_dot =
+  c_dot :: []
+
+(** val s_dotdot : str **)
+
+let s_dotdot =
+  c_dot :: (c_dot :: [])
+
+(** val s_formula_dash : str **)
+
+let s_formula_dash =
+  (Npos (XO (XI (XI (XO (XO (XI XH))))))) :: ((Npos (XI (XI (XI (XI (XO (XI
+    XH))))))) :: ((Npos (XO (XI (XO (XO (XI (XI XH))))))) :: ((Npos (XI (XO
+    (XI (XI (XO (XI XH))))))) :: ((Npos (XI (XO (XI (XO (XI (XI
+    XH))))))) :: ((Npos (XO (XO (XI (XI (XO (XI XH))))))) :: ((Npos (XI (XO
+    (XO (XO (XO (XI XH))))))) :: ((Npos (XI (XO (XI (XI (XO
+    XH)))))) :: [])))))))
+
+(** val strip_prefix : str -> str -> str option **)
+
+let rec strip_prefix p s =
+  match p with
+  | [] -> Some s
+  | x :: p' ->
+    (match s with
+     | [] -> None
+     | y :: s' -> if N.eqb x y then strip_prefix p' s' else None)
+
+(** val strip_suffix : str -> str -> str option **)
+
+let strip_suffix p s =
+  match strip_prefix (rev p) (rev s) with
+  | Some r -> Some (rev r)
+  | None -> None
+
+(** val split_inclusive : str -> str list **)
+
+let rec split_inclusive = function
+| [] -> []
+| c :: s' ->
+  if N.eqb c c_nl
+  then (c :: []) :: (split_inclusive s')
+  else (match split_inclusive s' with
+        | [] -> (c :: []) :: []
+        | piece :: pieces -> (c :: piece) :: pieces)
+
+(** val lines_map : str -> str **)
+
+let lines_map line =
+  match strip_suffix (c_nl :: []) line with
+  | Some l ->
+    (match strip_suffix (c_cr :: []) l with
+     | Some l' -> l'
+     | None -> l)
+  | None -> line
+
+(** val lines : str -> str list **)
+
+let lines s =
+  map lines_map (split_inclusive s)
+
+(** val trim_start : str -> str **)
+
+let trim_start =
+  skip_ws
+
+(** val trim_end : str -> str **)
+
+let trim_end s =
+  rev (skip_ws (rev s))
+
+(** val trim : str -> str **)
+
+let trim s =
+  trim_end (trim_start s)
+
+(** val is_empty0 : 'a1 list -> bool **)
+
+let is_empty0 = function
+| [] -> true
+| _ :: _ -> false
+
+(** val split : n -> str -> str list **)
+
+let rec split sep = function
+| [] -> [] :: []
+| c :: s' ->
+  if N.eqb c sep
+  then [] :: (split sep s')
+  else (match split sep s' with
+        | [] -> (c :: []) :: []
+        | seg :: segs -> (c :: seg) :: segs)
+
+(** val skip_trivial : str list -> str list **)
+
+let rec skip_trivial segs = match segs with
+| [] -> []
+| seg :: rest ->
+  if (||) (is_empty0 seg) (str_eqb seg s_dot) then skip_trivial rest else segs
+
+(** val file_name : str -> str option **)
+
+let file_name p =
+  match skip_trivial (rev (split c_slash p)) with
+  | [] -> None
+  | seg :: _ -> if str_eqb seg s_dotdot then None else Some seg
+
+(** val extension_of_file_name : str -> str option **)
+
+let extension_of_file_name f =
+  match rev (split c_dot f) with
+  | [] -> None
+  | after :: l ->
+    (match l with
+     | [] -> None
+     | before_last :: before_rest ->
+       if (&&) (is_empty0 before_last) (is_empty0 before_rest)
+       then None
+       else Some after)
+
+(** val extension : str -> str option **)
+
+let extension p =
+  match file_name p with
+  | Some f -> extension_of_file_name f
+  | None -> None
+
+(** val keep_formula : str -> bool **)
+
+let keep_formula t =
+  (&&) (negb (is_empty0 t)) (negb (peek_is c_hash t))
+
+(** val load_formulae : str -> str list **)
+
+let load_formulae content =
+  filter keep_formula (map trim (lines content))
+
+(** val result_label : nat -> str **)
+
+let result_label i =
+  app s_formula_dash (dec_of_N (N.of_nat i))
 
 (** val ext_alnum_tbl : n -> bool **)
 
